@@ -163,6 +163,12 @@ def check_grow(chk):
                  'max': pe.has_relation(rels, '<=', is_sum, is_max)}             # not (new > max)
         if pe.has_relation(rels, '<=', lambda v: is_sum(v, 64), is_max):
             tests['wrap'] = True            # 64-bit page arithmetic cannot wrap for 32-bit operands
+        # delta <= 0xFFFFFFFF - old is the no-wrap condition itself
+        def is_headroom(v):
+            v0 = pe.strip_casts(v)
+            return is_sym(v0) and v0.op == '-' and v0.args[0] == 0xFFFFFFFF and pe.strip_casts(v0.args[1]) == pages
+        if pe.has_relation(rels, '<=', lambda v: pe.strip_casts(v) == delta, is_headroom):
+            tests['wrap'] = True
         if isinstance(p.ret, int) and not writes:
             # a constant result (the "nothing to do" case) is only right when the old size is provably that constant:
             # new == 0 together with the wrap test gives old == 0
